@@ -102,6 +102,6 @@ def dumpErr (e : Option RErr) : String :=
   | some e =>
     let c := match e.cls with
       | .file => "file" | .field => "field" | .bundle => "bundle" | .cashLetter => "cashLetter" | .plain => "plain"
-    s!"err|{if e.wrapped then 1 else 0}|{e.line}|{e.record}|{c}|{e.field}"
+    if e.wrapped then s!"err|1|{e.line}|{e.record}|{c}|{e.field}" else s!"err|0|0||{c}|{e.field}"
 
 end Icl.Wire
